@@ -522,86 +522,101 @@ def _check_concat(run, mod, G, cfg, ys, fn):
            "both group queries must go to the sequence's address",
            where(mod, fn))
     L, H = lo[0].target, hi[0].target
-    word = None
-    sums = []          # (high+low order ok?, node)
-    for n in cfg.reachable:
-        if n.ast is None:
-            continue
-        for b in _walk_no_nested(n.ast):
-            if isinstance(b, ast.BinOp) and isinstance(b.op, ast.Add):
-                if _is_attr_chain(b.left, [H, "raw_value"]) and \
-                        _is_attr_chain(b.right, [L, "raw_value"]):
-                    sums.append((True, n))
-                elif _is_attr_chain(b.left, [L, "raw_value"]) and \
-                        _is_attr_chain(b.right, [H, "raw_value"]):
-                    sums.append((False, n))
-                else:
-                    continue
-                if n.kind == "stmt" and isinstance(n.ast, ast.Assign) and \
-                        n.ast.value is b and isinstance(
-                            n.ast.targets[0], ast.Name):
-                    word = n.ast.targets[0].id
-    okc = bool(sums) and all(o for (o, _) in sums)
-    wordtxt = ("%s.raw_value + %s.raw_value" % (H, L))
+    # every loop over a constant range / table unrolled, comprehensions
+    # expanded: what remains is one guarded `add` per group
+    from ..unroll import detable
+    from .. import astq
+    fx, _info = detable(fn, ranges=16)
+    defs = astq._defs(fx)
+    parent = {}
+    for x in ast.walk(fx):
+        for ch in ast.iter_child_nodes(x):
+            parent[id(ch)] = x
 
-    def is_word_bit(e, i):
-        return isinstance(e, ast.Subscript) and unparse(e.slice) == i and (
-            unparse(e.value) in (word, wordtxt, "(%s)" % wordtxt))
-    run.ob("R-CONCAT", G + "#high+low", okc,
-           "the 16-bit word must be <8-15 answer>.raw_value + <0-7 answer>"
-           ".raw_value (left operand lands in the high bits)",
-           where(mod, fn), sample={"rule": "R-CONCAT", "word": word,
-                                   "high": H, "low": L})
-    # for i in range(0,16): if word[i]: groups.add(i)
-    okl = False
-    ret = None
-    for n in cfg.reachable:
-        if n.kind == "for" and isinstance(n.ast.target, ast.Name):
-            i = n.ast.target.id
-            it = n.ast.iter
-            if isinstance(it, ast.Call) and unparse(it.func) == "range" and \
-                    [unparse(a) for a in it.args] in (["16"], ["0", "16"]):
-                for t in cfg.reachable:
-                    if t.kind == "test" and is_word_bit(t.ast, i):
-                        for (l, mnode) in t.succ:
-                            if l == "T" and mnode.kind == "stmt":
-                                for c in _walk_no_nested(mnode.ast):
-                                    if isinstance(c, ast.Call) and isinstance(
-                                            c.func, ast.Attribute) and \
-                                            c.func.attr == "add" and \
-                                            unparse(c.args[0]) == i:
-                                        okl = True
-                                        ret = unparse(c.func.value)
-    # equivalent comprehension form: {i for i in range(16) if word[i]}
-    comp_ret = False
-    for n in cfg.reachable:
-        if n.ast is None:
+    def bit_source(test):
+        """(answer name, bit) read by a test `W[j]`, W resolved."""
+        if not (isinstance(test, ast.Subscript) and isinstance(
+                test.slice, ast.Constant) and type(test.slice.value) is int):
+            return None
+        j = test.slice.value
+        w = astq.resolve(fx, test.value, defs=defs)
+        t = unparse(w)
+        if t == "%s.raw_value" % L and 0 <= j < 8:
+            return (L, j)
+        if t == "%s.raw_value" % H and 0 <= j < 8:
+            return (H, j)
+        if isinstance(w, ast.BinOp) and isinstance(w.op, ast.Add):
+            # Frame.__add__: the left operand lands in the high bits (C05)
+            lt, rt = unparse(w.left), unparse(w.right)
+            names = {"%s.raw_value" % L: L, "%s.raw_value" % H: H}
+            if lt in names and rt in names and lt != rt and 0 <= j < 16:
+                return (names[rt], j) if j < 8 else (names[lt], j - 8)
+        return None
+    got = set()
+    problems = []
+    acc = set()
+    for c_ in ast.walk(fx):
+        if not (isinstance(c_, ast.Call) and isinstance(
+                c_.func, ast.Attribute) and c_.func.attr == "add" and
+                len(c_.args) == 1 and isinstance(c_.func.value, ast.Name)):
             continue
-        for c in _walk_no_nested(n.ast):
-            if isinstance(c, (ast.SetComp, ast.ListComp)) and len(
-                    c.generators) == 1:
-                g = c.generators[0]
-                if isinstance(g.target, ast.Name) and unparse(c.elt) == \
-                        g.target.id and isinstance(g.iter, ast.Call) and \
-                        unparse(g.iter.func) == "range" and [
-                            unparse(a) for a in g.iter.args] in (
-                                ["16"], ["0", "16"]) and len(g.ifs) == 1 \
-                        and is_word_bit(g.ifs[0], g.target.id) \
-                        and isinstance(c, ast.SetComp):
-                    okl = True
-                    if isinstance(n.ast, ast.Return):
-                        comp_ret = True
-                    elif isinstance(n.ast, ast.Assign):
-                        ret = unparse(n.ast.targets[0])
-    run.ob("R-CONCAT", G + "#bit-i-is-group-i", okl,
-           "expected `for i in range(16): if word[i]: groups.add(i)`",
-           where(mod, fn))
-    rets = [unparse(n.ast.value) for n in cfg.reachable if n.kind == "stmt"
-            and isinstance(n.ast, ast.Return) and n.ast.value is not None]
-    run.ob("R-CONCAT", G + "#returns-set", rets == [ret] or (
-        comp_ret and len(rets) == 1),
-           "QueryGroups must return the accumulated set (%s), returns %s"
-           % (ret, rets), where(mod, fn))
+        acc.add(c_.func.value.id)
+        grp = astq.resolve(fx, c_.args[0], defs=defs)
+        if not (isinstance(grp, ast.Constant) and type(grp.value) is int):
+            problems.append("group `%s` is not a constant after unrolling"
+                            % unparse(c_.args[0]))
+            continue
+        # the enclosing tests
+        tests = []
+        p_, child = parent.get(id(c_)), c_
+        while p_ is not None and p_ is not fx:
+            if isinstance(p_, ast.If):
+                inbody = any(child is s_ for s_ in p_.body)
+                tests.append((p_.test, inbody))
+            elif isinstance(p_, (ast.For, ast.While, ast.Try)):
+                problems.append("group %d is added inside a %s the rule "
+                                "cannot unroll" % (grp.value,
+                                                   type(p_).__name__))
+            child, p_ = p_, parent.get(id(p_))
+        if len(tests) != 1 or not tests[0][1]:
+            problems.append("group %d is not added under exactly one bit "
+                            "test" % grp.value)
+            continue
+        src = bit_source(tests[0][0])
+        if src is None:
+            problems.append("group %d is added under `%s`, which is not a "
+                            "bit of one of the two answers" % (
+                                grp.value, unparse(tests[0][0])))
+            continue
+        got.add((src[0], src[1], grp.value))
+    want = {(L, k, k) for k in range(8)} | {(H, k, k + 8) for k in range(8)}
+    run.ob("R-CONCAT", G + "#high+low", not problems and {
+        (a_, b_, g_) for (a_, b_, g_) in got if g_ >= 8} == {
+            w_ for w_ in want if w_[2] >= 8} and {
+        (a_, b_, g_) for (a_, b_, g_) in got if g_ < 8} == {
+            w_ for w_ in want if w_[2] < 8},
+           "bit k of the 0-7 answer must be group k and bit k of the 8-15 "
+           "answer group k + 8 (in a concatenation the left operand lands "
+           "in the high bits); found %s%s" % (
+               sorted(got - want) or "missing " + str(sorted(want - got)),
+               "; " + "; ".join(problems) if problems else ""),
+           where(mod, fn), sample={"rule": "R-CONCAT", "high": H, "low": L,
+                                   "pairs": len(got)})
+    run.ob("R-CONCAT", G + "#bit-i-is-group-i", got == want and
+           not problems,
+           "each of the 16 groups must be reported exactly when its bit is "
+           "set: %d of 16 (answer, bit, group) triples as expected" % len(
+               got & want), where(mod, fn))
+    rets = [unparse(astq.resolve(fx, n.value, defs=defs))
+            for n in ast.walk(fx) if isinstance(n, ast.Return)
+            and n.value is not None]
+    inits = [unparse(n.value) for n in ast.walk(fx) if isinstance(
+        n, ast.Assign) and len(n.targets) == 1 and isinstance(
+            n.targets[0], ast.Name) and n.targets[0].id in acc]
+    run.ob("R-CONCAT", G + "#returns-set", len(acc) == 1 and rets == list(
+        acc) and inits == ["set()"],
+           "QueryGroups must return the accumulated set (%s, initialised %s),"
+           " returns %s" % (sorted(acc), inits, rets), where(mod, fn))
 
 
 def _check_setgroups(run, world, mod, S, cfg, ys, fn):
